@@ -36,10 +36,14 @@ const double PI = 3.14159265358979323846;
 // Suspected STIR defects found by this harness are excluded narrowly (see work/notes/C12_findings.md);
 // VERIF_NO_EXCLUDE=1 switches every exclusion off so that the recorded cases fail again.
 bool
-exclusions_on()
+exclusions_on(const char* finding)
 {
-  static const bool on = std::getenv("VERIF_NO_EXCLUDE") == nullptr;
-  return on;
+  static const bool all_off = std::getenv("VERIF_NO_EXCLUDE") != nullptr;
+  if (all_off)
+    return false;
+  // development aid: C12_NO_EXCLUDE=F3 switches a single exclusion off (to shrink a case for one finding)
+  static const char* one = std::getenv("C12_NO_EXCLUDE");
+  return !(one && std::string(one) == finding);
 }
 
 // index list lo..hi with a stride; the last index is always included (range ends matter for every clause)
@@ -247,7 +251,7 @@ check_tof(const ProjDataInfo& p)
             {
               const int kb = p.get_tof_bin(probe);
               const bool ok = kb == k || kb == k + 1;
-              if (!ok && exclusions_on())
+              if (!ok && exclusions_on("F6"))
                 stats().count("excluded:C12-F6 time difference between two TOF bins assigned to neither");
               else
                 VF_CHECK(ok, "TOF boundaries not contiguous: the time difference ", probe, " ps between bin ", k, " (high ", hips, ") and bin ", k + 1, " (low ",
@@ -455,7 +459,7 @@ check_noarc(const ProjDataInfoCylindricalNoArcCorr& p, const json& c)
                 // FINDING C12-F2: for the outermost possible tangential position |t| = N/2-1 (LOR between adjacent detectors)
                 // a tie can round both ends to the SAME detector; get_bin then indexes its det1==det2 table entry
                 // (assert in debug builds, uninitialised entry otherwise).  Excluded by construction.
-                if (ties && std::abs(t) == g.N / 2 - 1 && exclusions_on())
+                if (ties && std::abs(t) == g.N / 2 - 1 && exclusions_on("F2"))
                   {
                     stats().count("excluded:C12-F2 tie between adjacent detectors", long(ks.size()));
                     continue;
@@ -587,7 +591,7 @@ check_arc(const ProjDataInfoCylindricalArcCorr& p, const json& c)
                 // round(to_0_2pi(phi-offset)/sampling) = 2 x num_views and returns view_num == num_views
                 // (assert(bin.view_num() < get_num_views()) in ProjDataInfoCylindricalArcCorr.cxx:125, an out-of-range view in
                 // release builds).  Excluded by construction: view 0 of arc-corrected data with a positive offset.
-                if (v == 0 && p.get_azimuthal_angle_offset() > 0 && exclusions_on())
+                if (v == 0 && p.get_azimuthal_angle_offset() > 0 && exclusions_on("F5"))
                   stats().count("excluded:C12-F5 arc-corrected get_bin, view 0 with positive azimuthal offset");
                 else
                 {
@@ -666,7 +670,7 @@ check_blocks(const ProjDataInfoGenericNoArcCorr& p, const json& c)
             {
               const double rl = std::max(std::hypot(double(c1.x()), double(c1.y())), std::hypot(double(c2.x()), double(c2.y())));
               const bool affected = l.tantheta != 0 && (l.s / rl) * (l.s / rl) >= 2e-5;
-              if (affected && exclusions_on())
+              if (affected && exclusions_on("F3"))
                 stats().count("excluded:C12-F3 generic get_tantheta off-centre");
               else
                 {
@@ -697,7 +701,7 @@ check_blocks(const ProjDataInfoGenericNoArcCorr& p, const json& c)
               // outer of the two crystals (ProjDataInfoGeneric::get_LOR).  The round trip therefore reports a miss for most bins
               // and occasionally a bin two tangential positions away.  Excluded by construction for blocks/generic data;
               // the outcome classes are still counted.
-              if (exclusions_on())
+              if (exclusions_on("F4"))
                 {
                   const Bin nb2 = p.get_bin(lor2, 0.);
                   const Result rr = accept_roundtrip(p, b, nb2, false, "two points, blocks");
@@ -766,7 +770,7 @@ check_arc_correction(const shared_ptr<ProjDataInfo>& noarc_sptr, const json& a)
   // FINDING C12-F1 (work/notes/C12_findings.md): ArcCorrection::set_up puts the upper edge of the LAST output bin at
   // (max+1.5) x sampling instead of (max+0.5) x sampling, so that bin collects twice its width whenever the input reaches
   // it.  Excluded by construction: the last output bin is left out of both facts (its lower edge ends the checked range).
-  const bool excl_last = exclusions_on();
+  const bool excl_last = exclusions_on("F1");
   const int omax_checked = excl_last ? omax - 1 : omax;
   if (excl_last && out_edge(omax) < in_hi)
     stats().count("excluded:C12-F1 last arc-corrected bin reached by the input");
